@@ -177,7 +177,7 @@ func memoCheck(reqs []memoReq) (err error) {
 }
 
 func TestMemo(t *testing.T) {
-	rec.Check(t, rec.Scale(150, 1500), func(rt *rapid.T) {
+	rec.Check(t, rec.Scale(100, 1500), func(rt *rapid.T) {
 		n := rapid.IntRange(2, 8).Draw(rt, "n")
 		// a small set of argument classes per case so that repeats are frequent
 		pool := rapid.SliceOfN(rapid.IntRange(0, len(spellings)-1), 1, 3).Draw(rt, "pool")
